@@ -31,6 +31,9 @@ type c06Case struct {
 	Corpus corpusSel `json:"corpus"`
 	X      recipe    `json:"x"`
 	Ops    []c06Op   `json:"ops"`
+	// Used: the classifier is a private one on which Normalize has been called for the transformed text before the
+	// comparison (a classifier with a call history; small corpora only).
+	Used bool `json:"used,omitempty"`
 }
 
 // Templates the code recognises as notices. "copyright [yyyy] ..." and "copyright (c) [dates of first publication]"
@@ -79,6 +82,7 @@ func c06Gen(t *rapid.T) interface{} {
 	c.X = genRecipe(t, c.Thr)
 	if !c.Corpus.Full {
 		c.Corpus = smallCorpusAround(t, c.X.docs())
+		c.Used = lib.IntN(t, 0, 3, "used") == 0
 	}
 	kinds := []string{"notice", "notice", "date", "marker", "marker", "split", "split", "spelling", "url"}
 	n := lib.IntN(t, 1, 3, "nops")
@@ -127,6 +131,9 @@ func c06Check(ci interface{}) lib.Outcome {
 		return lib.Outcome{Skip: "malformed"}
 	}
 	cl := classifierFor(c.Thr, c.Corpus)
+	if c.Used && !c.Corpus.Full {
+		cl = privateClassifier(c.Thr, c.Corpus)
+	}
 	x := c.X.build(cl)
 	ls := splitLines(x)
 	norig := len(ls)
@@ -273,6 +280,11 @@ func c06Check(ci interface{}) lib.Outcome {
 	}
 	sort.Strings(kinds)
 	desc := fmt.Sprintf("threshold %v: [%s] applied to %s", c.Thr, strings.Join(kinds, ", "), c.X.describe())
+	if c.Used && !c.Corpus.Full {
+		cl.Normalize(tx)
+		cl.Normalize(x)
+		desc += " (classifier has normalized both texts before)"
+	}
 
 	// ---- token level: ids unchanged (lines mapped unless a word was split)
 	a, b := ids(cl, x), ids(cl, tx)
@@ -399,6 +411,9 @@ func c06Check(ci interface{}) lib.Outcome {
 		}
 	}
 	classes = dedupe(classes)
+	if c.Used && !c.Corpus.Full {
+		classes = append(classes, "used-classifier")
+	}
 	o := lib.Outcome{Classes: classes, Nontrivial: len(la) > 0 && len(applied) > 0,
 		Extra: map[string]int{"positions_restricted": restricted, "notices_inside_license_span(F14)": excludedInside}}
 	if o.Nontrivial {
